@@ -41,7 +41,8 @@ def shapes_suite(tier, seed):
                     shp = rng.choice(shapes)
                     sel = "both" if (i == 0 or not nw) else rng.choice(["both", "narrow", "wide"])
                     nm = f"e{i}"
-                    eps.append(families.mk_ep(nm, roles[i], nw, rng, alloc, array=shp, proto_sel=sel))
+                    sel_s = sel if (i == 0 or not nw or rng.random() < 0.4) else rng.choice(["both", "narrow", "wide"])
+                    eps.append(families.mk_ep(nm, roles[i], nw, rng, alloc, array=shp, proto_sel=sel, proto_sel_sbr=sel_s))
                     c = {"src": nm, "dst": "router"}
                     if shp is not None:
                         dims = [shp] if isinstance(shp, int) else list(shp)
@@ -56,5 +57,5 @@ def shapes_suite(tier, seed):
 def run(tier, seed, rep, replay=None):
     netprops.standard_run(ID, tier, seed, rep, replay, ALGOS, nontrivial, extra_cases=shapes_suite, rule=
                           "all routing families + shapes suite (single, [1], [n], [1,n], [m,1], [m,n], [1,1]; manager / "
-                          "subordinate / both; narrow-only, wide-only, both per role; distinct id widths; axi protocols with a "
+                          "subordinate / both; narrow-only, wide-only, both, chosen independently for the manager and the subordinate side; distinct id widths; axi protocols with a "
                           "type tag; default and explicit type_prefix); non-trivial = has an array endpoint or is narrow-wide")
